@@ -96,7 +96,7 @@ impl Property for C18 {
     }
 
     fn cases(tier: Tier) -> u64 {
-        tier.pick(6_000, 600_000)
+        tier.pick(18_000, 600_000)
     }
 
     fn strategy(_tier: Tier) -> BoxedStrategy<Case> {
